@@ -90,6 +90,11 @@ def obs_term(o):
     return f'(OOk {q(o["value"])} {uref(o["cur"])} {qconv.blit(o.get("provided", False))})'
 
 
+def floor_of(d, *texts):
+    """absolute comparison floor: TOL x the largest offset among the units involved (0 for offset-free units)"""
+    return TOL * max([abs(d['pint'][t]['off']) for t in texts if d['pint'].get(t)] + [F(0)])
+
+
 def zverdicts(ctx, name, terms, chunk=300):
     """terms of type Z (oracle verdicts, 0..15) -> list of ints, evaluated inside Coq (vm_compute)"""
     from concurrent.futures import ThreadPoolExecutor
@@ -165,9 +170,12 @@ def reader_cases(ctx, d):
                     xs += [sig7(x / 1000), sig7(x / 10 ** 6)]   # small amounts: stay in range whatever the scaling
                 for xt in xs:
                     cases.append({'row': r, 'u': u, 'xt': xt, 'x': F(xt), 'catalogue': u in units, 'text': f'{xt} {u}'})
-        # the default unit written explicitly with the default value (equality paths) and no unit at all
+        # no unit at all, and the default value written with the default unit (the "== default / == current" early returns)
         t = targets(r, rnd, 1)[0]
         cases.append({'row': r, 'u': None, 'xt': sig7(t), 'x': F(sig7(t)), 'catalogue': False, 'text': sig7(t)})
+        dv = repr(float(r['param'].DefaultValue))
+        if r['pref'] and 'e' not in dv and 'inf' not in dv and 'nan' not in dv:
+            cases.append({'row': r, 'u': r['pref'], 'xt': dv, 'x': F(dv), 'catalogue': False, 'text': f'{dv} {r["pref"]}'})
     return cases
 
 
@@ -203,16 +211,17 @@ def case_key(c):
 def read_terms(c):
     r = c['row']
     p = r['param']
+    fl = q(floor_of(gen.data(), *r['units'], *cu.EXTRA_UNITS))
     st = state_term(F(p.value) if r['kind'] == 'int' else F(float(p.value)), r['cur'], bool(p.Provided))
     u = f'(Some {cs(c["u"])})' if c['u'] is not None else 'None'
     model = f'(read_param gen_tables {spec_term(r)} {st} {q(c["x"])} {u})'
-    corr = f'agree_state {q(TOL)} {model} {obs_term(c["obs"])}'
+    corr = f'agree_state {q(TOL)} {fl} {model} {obs_term(c["obs"])}'
     isint = qconv.blit(r['kind'] == 'int')
     oracle = (f'(oracle_read gen_tables {q(TOL)} {cs(r["pref"])} {isint} {q(c["x"])} {cs(c["u"])} {obs_term(c["obs"])})'
               if c['u'] is not None else None)
     echo_model = f'(match {model} with ROk st => echo_state gen_tables {spec_term(r)} st | RErr c => RErr c end)'
     e = c['echo']
-    echo_corr = f'agree_state {q(TOL)} {echo_model} {obs_term({**e, "provided": c["obs"].get("provided", False)})}' if e else None
+    echo_corr = f'agree_state {q(TOL)} {fl} {echo_model} {obs_term({**e, "provided": c["obs"].get("provided", False)})}' if e else None
     echo_oracle = (f'(oracle_echo gen_tables {q(TOL)} {cs(r["pref"])} {isint} {q(c["x"])} {cs(c["u"])} {obs_term(e)})'
                    if e and c['u'] is not None else None)
     return corr, oracle, echo_corr, echo_oracle
@@ -369,11 +378,11 @@ def check_tables(ctx, d):
         ctx.violate('corr', f'corr:registry-table:{descs[i][0]}:{descs[i][1]}',
                     f'generated unit table disagrees with the registry on {descs[i]}', inp={'part': 'registry-table', 'case': descs[i]})
     # the pinned registry fragment of the _refuted witnesses still describes the current tree
-    pins = [f'agree_state 0 (read_param pin_tables spec_temperature (mkP 70 (UEnum "degC") false) 122 (Some "degF")) '
+    pins = [f'agree_state 0 0 (read_param pin_tables spec_temperature (mkP 70 (UEnum "degC") false) 122 (Some "degF")) '
             f'(match read_param gen_tables spec_temperature (mkP 70 (UEnum "degC") false) 122 (Some "degF") with ROk st => OOk (p_value st) (p_cur st) (p_provided st) | RErr c => OErr c end)',
-            f'agree_state 0 (read_param pin_tables spec_area (mkP 250000 (UEnum "m**2") false) 5000 (Some "cm**2")) '
+            f'agree_state 0 0 (read_param pin_tables spec_area (mkP 250000 (UEnum "m**2") false) 5000 (Some "cm**2")) '
             f'(match read_param gen_tables spec_area (mkP 250000 (UEnum "m**2") false) 5000 (Some "cm**2") with ROk st => OOk (p_value st) (p_cur st) (p_provided st) | RErr c => OErr c end)',
-            f'agree_state 0 (read_param pin_tables spec_cost (mkP (-1) (UEnum "MUSD") false) (5#1000) (Some "KUSD")) '
+            f'agree_state 0 0 (read_param pin_tables spec_cost (mkP (-1) (UEnum "MUSD") false) (5#1000) (Some "KUSD")) '
             f'(match read_param gen_tables spec_cost (mkP (-1) (UEnum "MUSD") false) (5#1000) (Some "KUSD") with ROk st => OOk (p_value st) (p_cur st) (p_provided st) | RErr c => OErr c end)']
     bad = fw.kernel_bools(ctx, 'pinned-witness', REQ, pins, open_scope='Q_scope')
     ctx.count('pinned-witness', evaluations=len(pins))
@@ -432,7 +441,7 @@ def check_outputs(ctx, d):
         if l[0] == 'E':
             l = l + (l[2] in cur_enums,)
         ost = f'(mkO {qconv.qlist(c["vals"])} {uref(r["cur"])} {cs(r["pref"])})'
-        terms.append(f'agree_output {q(TOL)} (output_step gen_tables (Some (t_lookup gen_tables {cs(c["nu"])})) {ost}) {oobs_term(c["obs"])}')
+        terms.append(f'agree_output {q(TOL)} {q(floor_of(d, *r["units"]))} (output_step gen_tables (Some (t_lookup gen_tables {cs(c["nu"])})) {ost}) {oobs_term(c["obs"])}')
         oracles.append(f'(oracle_output gen_tables {q(TOL)} {cs(r["cur"][1])} {cs(c["nu"])} {qconv.qlist(c["vals"])} {oobs_term(c["obs"])})')
     bad = fw.kernel_bools(ctx, 'output-corr', REQ, terms, open_scope='Q_scope')
     okey = lambda c: f'{c["row"]["utype"]}:{c["row"]["cur"][1] or "dimensionless"}:{c["nu"] or "dimensionless"}'
@@ -545,11 +554,11 @@ def check_convert_loop(ctx, d):
                     oracles.append(f'(oracle_untouched {uref(r["cur"])} {qconv.qlist(x["vals"])} {oobs_term(ob)})')
                     descs.append(('output-loop-untouched', f'{r["utype"]}:{r["cur"][1] or "dimensionless"}', f'{r["name"]} (not requested)', ob, x))
             rq = '[' + '; '.join(f'({cs(k)}, t_lookup gen_tables {cs(u)})' for k, u in reqs.items()) + ']'
-            terms.append(f'agree_outputs {q(TOL)} (convert_outputs gen_tables {rq} [' + '; '.join(mod) + ']) (ROk [' + '; '.join(obs) + '])')
+            terms.append(f'agree_outputs {q(TOL)} {q(floor_of(d, *d["texts"]))} (convert_outputs gen_tables {rq} [' + '; '.join(mod) + ']) (ROk [' + '; '.join(obs) + '])')
         for st in ins:
             r, p = st['row'], st['p']
             ob = {'status': 'ok', 'value': p.value, 'cur': cu.uval(p.CurrentUnits), 'provided': bool(p.Provided)}
-            terms.append(f'agree_state {q(TOL)} (echo_state gen_tables {spec_term(r)} {state_term(st["v0"], st["c0"], bool(p.Provided))}) {obs_term(ob)}')
+            terms.append(f'agree_state {q(TOL)} {q(floor_of(d, *r["units"]))} (echo_state gen_tables {spec_term(r)} {state_term(st["v0"], st["c0"], bool(p.Provided))}) {obs_term(ob)}')
             if st.get('moved'):
                 oracles.append(f'(oracle_echo gen_tables {q(TOL)} {cs(r["pref"])} false {q(st["v0"])} {cs(st["c0"][1])} {obs_term(ob)})')
                 descs.append(('echo-loop', klass({'row': r, 'u': st['c0'][1]}), f'{r["name"]} held as {float(st["v0"])!r} {st["c0"][1]}', ob, None))
@@ -836,14 +845,14 @@ def py_verdict(d, c, o, echo):
     if r['kind'] == 'int':
         e = F(math.trunc(e))
     v = F(o['value']) if r['kind'] == 'int' else F(float(o['value']))
-    close = lambda a, b: abs(a - b) <= TOL * max(abs(a), abs(b))
-    if not echo and not close(v, e):
+    close = lambda a, b, fl: abs(a - b) <= TOL * max(abs(a), abs(b)) or abs(a - b) <= fl
+    if not echo and not close(v, e, TOL * max(abs(p['off']), abs(n['off']))):
         return 2
     cu_ = d['pint'].get('' if o['cur'][0] == 'N' else o['cur'][1])
     if not cu_ or cu_['dim'] != p['dim']:
         return 3
     back = (cu_['fac'] * v + cu_['off'] - p['off']) / p['fac']
-    return 0 if close(back, e if echo else v) else 3
+    return 0 if close(back, e if echo else v, TOL * max(abs(p['off']), abs(n['off']), abs(cu_['off']))) else 3
 
 
 def py_reader_oracle(ctx, d, cases):
@@ -938,5 +947,52 @@ def replay(ctx, data):
         viol = bool(diff or bad)
         print('property', 'VIOLATED' if viol else 'holds', 'on this input')
         return 1 if viol else 0
+    if part == 'loop':
+        return replay_loop(ctx, d, inp)
     print('unknown replay part', part)
     return 1
+
+
+def replay_loop(ctx, d, inp):
+    """the recorded "Units:" requests (and, for an echo entry, the recorded parameter state) through the real Outputs._convert_units"""
+    import copy
+    from types import SimpleNamespace
+    gx, P, U = cu.modules()
+    from geophires_x.Outputs import Outputs
+    core = ['Reservoir', 'WellBores', 'SurfacePlant', 'Economics']
+    objs = {n: copy.deepcopy(d['objs'][n]) for n in core}
+    model = SimpleNamespace(logger=cu.StubModel.logger, InputParameters={}, reserv=objs['Reservoir'], wellbores=objs['WellBores'],
+                            surfaceplant=objs['SurfacePlant'], economics=objs['Economics'])
+    outputs = cu._quiet(lambda: Outputs(model, output_file=str(ctx.scratch / 'loop.out')))
+    rows = {r['key']: r for r in d['outs'] if r['cls'] in core}
+    for k, u in inp.get('requests', {}).items():
+        objs[rows[k]['cls']].OutputParameterDict[k].value = 1234.5
+        outputs.ParameterDict[k] = P.LookupUnits(u)[0]
+    m = re.match(r'^(.*) held as (\S+) (\S+)$', inp.get('entry', ''))
+    held = None
+    if m:
+        r = [r for r in d['params'] if r['cls'] in core and r['name'] == m.group(1)][0]
+        p = objs[r['cls']].ParameterDict[r['key']]
+        p.value, p.CurrentUnits = float(m.group(2)), [x for x in type(p.PreferredUnits) if x.value == m.group(3)][0]
+        held = (r, p, F(m.group(2)), m.group(3))
+    try:
+        cu._quiet(lambda: outputs._convert_units(model))
+    except Exception as e:
+        print('Outputs._convert_units raises', type(e).__name__, e); print('property VIOLATED on this input'); return 1
+    bad = 0
+    close = lambda a, b: abs(a - b) <= F(1, 10 ** 9) * max(abs(a), abs(b))
+    for k, u in inp.get('requests', {}).items():
+        o = objs[rows[k]['cls']].OutputParameterDict[k]
+        e = to_unit(d, F('1234.5'), rows[k]['cur'][1], u)
+        ok = cu.uval(o.CurrentUnits)[1] == u and close(F(float(o.value)), e)
+        bad += not ok
+        if not ok:
+            print(f'  Units:{k}, {u}: 1234.5 {rows[k]["cur"][1]} -> {o.value!r} {cu.uval(o.CurrentUnits)[1]!r}, expected {float(e)!r} {u!r}')
+    if held:
+        r, p, v0, u0 = held
+        e, back = to_unit(d, v0, u0, r['pref']), to_unit(d, F(float(p.value)), cu.uval(p.CurrentUnits)[1], r['pref'])
+        ok = back is not None and close(back, e)
+        bad += not ok
+        print(f'  {r["name"]}: {float(v0)!r} {u0} -> {p.value!r} {cu.uval(p.CurrentUnits)[1]!r}; same quantity: {ok}')
+    print('property', 'VIOLATED' if bad else 'holds', 'on this input')
+    return 1 if bad else 0
